@@ -36,11 +36,18 @@ theorem runs_varEvaluation (n : String) (g : Bool) : Runs (varEvaluation n g) :=
 theorem runs_assign_eval (h v : String) : Runs (do varAssignment h v false; varEvaluation h false : BM String) :=
   runs_bind (runs_varAssignment _ _ _) (fun _ => runs_varEvaluation _ _)
 
+theorem runs_arith_eval (h l o r : String) : Runs (do varAssignArith h l o r false; varEvaluation h false : BM String) := by
+  refine runs_bind ?_ (fun _ => runs_varEvaluation _ _)
+  unfold varAssignArith; exact runs_bind runs_get (fun _ => runs_addLine _)
+theorem runs_test_eval (h : String) (t : Test) (a b : String) : Runs (do varAssignTest h t a b false; varEvaluation h false : BM String) := by
+  refine runs_bind ?_ (fun _ => runs_varEvaluation _ _)
+  unfold varAssignTest; exact runs_bind runs_get (fun _ => runs_addLine _)
+
 theorem runs_unaryOp (e : String) : Runs (unaryOp e "!") := by
   unfold unaryOp
   refine runs_bind runs_nextHelperVar (fun h => ?_)
   simp only [beq_self_eq_true, if_true]
-  exact runs_assign_eval _ _
+  exact runs_test_eval _ _ _ _
 
 theorem runs_binaryOp (l op r : String) (vt : ValueType) (h : binaryAllowed vt op = true) : Runs (binaryOp l op r vt) := by
   unfold binaryOp
@@ -53,7 +60,7 @@ theorem runs_binaryOp (l op r : String) (vt : ValueType) (h : binaryAllowed vt o
     have : (op == "*" || op == "/" || op == "%" || op == "+" || op == "-") = true := by
       simp only [Bool.or_eq_true, beq_iff_eq]; exact ho
     simp only [this, if_true]
-    exact runs_assign_eval _ _
+    exact runs_arith_eval _ _ _ _
   · rw [hd]
     simp only [ho, beq_self_eq_true, if_true]
     exact runs_assign_eval _ _
@@ -72,12 +79,12 @@ theorem compareOpString_ne (op : String) (vt : ValueType) (h : compareAllowed vt
 theorem runs_comparisonOp (l op r : String) (vt : ValueType) (h : compareAllowed vt op = true) : Runs (comparisonOp l op r vt) := by
   unfold comparisonOp comparisonOpWith
   simp only [compareOpString_ne op vt h, Bool.false_eq_true, if_false]
-  exact runs_bind runs_nextHelperVar (fun _ => runs_assign_eval _ _)
+  exact runs_bind runs_nextHelperVar (fun _ => runs_test_eval _ _ _ _)
 
 theorem runs_logicalOp (l op r : String) (h : (op == "&&" || op == "||") = true) : Runs (logicalOp l op r) := by
   unfold logicalOp
   simp only [h, if_true]
-  exact runs_bind runs_nextHelperVar (fun _ => runs_assign_eval _ _)
+  exact runs_bind runs_nextHelperVar (fun _ => runs_test_eval _ _ _ _)
 
 theorem runs_sahInits (arr : String) : ∀ (vs : List String) (i : Nat), Runs (sahInits arr vs i) := by
   intro vs
@@ -140,7 +147,7 @@ theorem runs_copyOp (d s : String) (g : Bool) : Runs (copyOp d s g) := by
       runs_bind runs_get (fun _ => runs_pure _)))))))
 
 theorem runs_existsOp (p : String) : Runs (existsOp p) := by
-  unfold existsOp; exact runs_bind runs_nextHelperVar (fun _ => runs_assign_eval _ _)
+  unfold existsOp; exact runs_bind runs_nextHelperVar (fun _ => runs_test_eval _ _ _ _)
 
 theorem runs_readFile (p : String) : Runs (readFile p) := by
   unfold readFile; exact runs_bind runs_nextHelperVar (fun _ => runs_assign_eval _ _)
